@@ -147,6 +147,9 @@ class Flow:
             if isinstance(s.value, ast.Constant):
                 return 'Skip'
             return self.seq(self.calls(s.value))
+        if isinstance(s, ast.Assign) and ast.unparse(s) in self.effects:
+            # a tracked assignment (e.g. a flag that another thread reads)
+            return self.seq(self.calls(s.value) + ['(Eff %s)' % self.effects[ast.unparse(s)]])
         if isinstance(s, (ast.Assign, ast.AnnAssign, ast.AugAssign)):
             targets = s.targets if isinstance(s, ast.Assign) else [s.target]
             frags = self.calls(s.value) if s.value is not None else []
